@@ -483,6 +483,156 @@ def large_parameter_pmf():
     return n, bad[:40]
 
 
+def sibling_cases():
+    """instances of one class that share one parameter and differ in the
+    other(s): evaluated one after the other in one process"""
+    from scipy import stats
+    from pydsol.core import distributions as D
+    e = math.exp
+    return [
+        ("Erlang", "c", [
+            (lambda s: D.DistErlang(s, 0.5, 25), stats.erlang(25, scale=0.5)),
+            (lambda s: D.DistErlang(s, 2.5, 25), stats.erlang(25, scale=2.5)),
+            (lambda s: D.DistErlang(s, 2.5, 30), stats.erlang(30, scale=2.5)),
+            (lambda s: D.DistErlang(s, 0.5, 3), stats.erlang(3, scale=0.5)),
+            (lambda s: D.DistErlang(s, 2.5, 3), stats.erlang(3, scale=2.5))]),
+        ("Gamma", "c", [
+            (lambda s: D.DistGamma(s, 2.5, 2.0), stats.gamma(2.5, scale=2.0)),
+            (lambda s: D.DistGamma(s, 2.5, 0.5), stats.gamma(2.5, scale=0.5)),
+            (lambda s: D.DistGamma(s, 0.5, 0.5), stats.gamma(0.5, scale=0.5)),
+            (lambda s: D.DistGamma(s, 30.0, 0.5),
+             stats.gamma(30.0, scale=0.5))]),
+        ("Weibull", "c", [
+            (lambda s: D.DistWeibull(s, 1.5, 2.0),
+             stats.weibull_min(1.5, scale=2.0)),
+            (lambda s: D.DistWeibull(s, 1.5, 3.0),
+             stats.weibull_min(1.5, scale=3.0)),
+            (lambda s: D.DistWeibull(s, 0.7, 3.0),
+             stats.weibull_min(0.7, scale=3.0))]),
+        ("Beta", "c", [
+            (lambda s: D.DistBeta(s, 2.0, 3.0), stats.beta(2, 3)),
+            (lambda s: D.DistBeta(s, 2.0, 5.0), stats.beta(2, 5)),
+            (lambda s: D.DistBeta(s, 4.0, 5.0), stats.beta(4, 5))]),
+        ("Normal", "c", [
+            (lambda s: D.DistNormal(s, 1.0, 2.0), stats.norm(1.0, 2.0)),
+            (lambda s: D.DistNormal(s, 1.0, 0.5), stats.norm(1.0, 0.5)),
+            (lambda s: D.DistNormal(s, -3.0, 0.5), stats.norm(-3.0, 0.5))]),
+        ("LogNormal", "c", [
+            (lambda s: D.DistLogNormal(s, 0.5, 0.4),
+             stats.lognorm(0.4, scale=e(0.5))),
+            (lambda s: D.DistLogNormal(s, 0.5, 1.0),
+             stats.lognorm(1.0, scale=e(0.5))),
+            (lambda s: D.DistLogNormal(s, 0.0, 1.0), stats.lognorm(1.0))]),
+        ("NormalTrunc", "c", [
+            (lambda s: D.DistNormalTrunc(s, 0.0, 1.0, -1.0, 2.0),
+             stats.truncnorm(-1, 2)),
+            (lambda s: D.DistNormalTrunc(s, 0.0, 1.0, -1.0, 1.0),
+             stats.truncnorm(-1, 1)),
+            (lambda s: D.DistNormalTrunc(s, 0.0, 2.0, -1.0, 1.0),
+             stats.truncnorm(-0.5, 0.5, scale=2.0))]),
+        ("Pearson5", "c", [
+            (lambda s: D.DistPearson5(s, 2.0, 3.0),
+             stats.invgamma(2.0, scale=3.0)),
+            (lambda s: D.DistPearson5(s, 2.0, 1.0),
+             stats.invgamma(2.0, scale=1.0)),
+            (lambda s: D.DistPearson5(s, 4.0, 1.0),
+             stats.invgamma(4.0, scale=1.0))]),
+        ("Pearson6", "c", [
+            (lambda s: D.DistPearson6(s, 2.0, 3.0, 1.5),
+             stats.betaprime(2.0, 3.0, scale=1.5)),
+            (lambda s: D.DistPearson6(s, 2.0, 3.0, 0.5),
+             stats.betaprime(2.0, 3.0, scale=0.5)),
+            (lambda s: D.DistPearson6(s, 2.0, 4.0, 0.5),
+             stats.betaprime(2.0, 4.0, scale=0.5))]),
+        ("Triangular", "c", [
+            (lambda s: D.DistTriangular(s, 1.0, 2.0, 4.0),
+             stats.triang(c=1 / 3, loc=1, scale=3)),
+            (lambda s: D.DistTriangular(s, 1.0, 3.0, 4.0),
+             stats.triang(c=2 / 3, loc=1, scale=3)),
+            (lambda s: D.DistTriangular(s, 1.0, 3.0, 7.0),
+             stats.triang(c=1 / 3, loc=1, scale=6))]),
+        ("Exponential", "c", [
+            (lambda s: D.DistExponential(s, 2.0), stats.expon(scale=2.0)),
+            (lambda s: D.DistExponential(s, 0.25), stats.expon(scale=0.25))]),
+        ("Uniform", "c", [
+            (lambda s: D.DistUniform(s, 1.0, 4.0), stats.uniform(1, 3)),
+            (lambda s: D.DistUniform(s, 1.0, 2.0), stats.uniform(1, 1))]),
+        ("Binomial", "d", [
+            (lambda s: D.DistBinomial(s, 30, 0.25), stats.binom(30, 0.25)),
+            (lambda s: D.DistBinomial(s, 30, 0.5), stats.binom(30, 0.5)),
+            (lambda s: D.DistBinomial(s, 12, 0.5), stats.binom(12, 0.5))]),
+        ("NegBinomial", "d", [
+            (lambda s: D.DistNegBinomial(s, 25, 0.25), stats.nbinom(25, 0.25)),
+            (lambda s: D.DistNegBinomial(s, 25, 0.5), stats.nbinom(25, 0.5)),
+            (lambda s: D.DistNegBinomial(s, 3, 0.5), stats.nbinom(3, 0.5))]),
+        ("Poisson", "d", [
+            (lambda s: D.DistPoisson(s, 30.0), stats.poisson(30.0)),
+            (lambda s: D.DistPoisson(s, 2.5), stats.poisson(2.5))]),
+        ("Geometric", "d", [
+            (lambda s: D.DistGeometric(s, 0.25), stats.geom(0.25, loc=-1)),
+            (lambda s: D.DistGeometric(s, 0.5), stats.geom(0.5, loc=-1))]),
+        ("DiscreteUniform", "d", [
+            (lambda s: D.DistDiscreteUniform(s, -2, 3), stats.randint(-2, 4)),
+            (lambda s: D.DistDiscreteUniform(s, -2, 9), stats.randint(-2, 10)),
+            (lambda s: D.DistDiscreteUniform(s, 5, 9), stats.randint(5, 10))]),
+        ("Bernoulli", "d", [
+            (lambda s: D.DistBernoulli(s, 0.25), stats.bernoulli(0.25)),
+            (lambda s: D.DistBernoulli(s, 0.75), stats.bernoulli(0.75))]),
+    ]
+
+
+def sibling_worker(task):
+    """one family, one evaluation order: every instance's density / pmf on
+    its own quantile grid against the closed form while the other instances
+    of the class exist and have been evaluated before it; afterwards every
+    instance is evaluated again and has to return the identical numbers"""
+    np = np_()
+    fam, order = task
+    Lattice = make_stream()
+    _, kind, members = [f for f in sibling_cases() if f[0] == fam][0]
+    idx = list(range(len(members)))
+    if order == "reverse":
+        idx.reverse()
+    elif order == "rotate":
+        idx = idx[1:] + idx[:1]
+    bad, n = [], 0
+    inst, vals = {}, {}
+    for i in idx:
+        mk, ref = members[i]
+        d = inst[i] = mk(Lattice())
+        if kind == "c":
+            grid = [float(x) for x in ref.ppf(np.linspace(0.01, 0.99, 41))]
+            f, rf = d.probability_density, ref.pdf
+        else:
+            lo, hi = int(ref.ppf(0.001)), int(ref.ppf(0.999))
+            grid = list(range(lo, hi + 1))[:60]
+            f, rf = d.probability, ref.pmf
+        out = []
+        for x in grid:
+            n += 1
+            try:
+                p = f(x)
+            except Exception as ex:  # noqa
+                bad.append(("sibling-evaluation-raises", fam, i, order, x,
+                            type(ex).__name__))
+                break
+            out.append(p)
+            rp = float(rf(x))
+            if rp > 1e-300 and abs(p - rp) > 1e-7 * rp:
+                bad.append(("sibling-instance-differs-from-closed-form", fam,
+                            i, order, x, p, rp))
+                break
+        vals[i] = (grid, out, f)
+    for i in idx:
+        grid, out, f = vals[i]
+        n += len(out)
+        again = [f(x) for x in grid[:len(out)]]
+        if again != out:
+            bad.append(("sibling-instance-changed-by-later-instances", fam, i,
+                        order))
+    return dict(n=n, bad=bad[:6])
+
+
 def poisson_check():
     """Poisson consumes x+1 uniforms for the value x: P(X=j) is the fraction
     of the (j+1)-dimensional lattice that consumes exactly j+1 uniforms"""
@@ -660,6 +810,18 @@ def run(ctx):
         ctx.violation("C15:%s:%s" % (b[0], b[1]), "large parameters: %s" % (b,),
                       {"part": "largepmf"})
     ctx.part("pmf at large parameters", evaluations=n)
+    fams = [(f[0], o) for f in sibling_cases()
+            for o in ("forward", "reverse", "rotate")]
+    ns = 0
+    for r in common.pimap(sibling_worker, fams):
+        ns += r["n"]
+        for b in r["bad"]:
+            ctx.violation("C15:%s:%s" % (b[0], b[1]),
+                          "instances of one class: %s" % (b,),
+                          {"part": "sibling", "family": b[1], "order": b[3]})
+    ev += ns
+    ctx.part("sibling instances of one class in one process, 3 orders",
+             families=len(fams) // 3, evaluations=ns)
     n, bad = cdf_checks()
     ev += n
     for b in bad:
@@ -701,6 +863,9 @@ def replay(data):
         return sampler_worker(data["case"])["bad"][:3] or None
     if part == "discrete":
         return discrete_worker(data["case"])["bad"][:3] or None
+    if part == "sibling":
+        return sibling_worker((data["family"], data["order"]))["bad"][:3] \
+            or None
     if part == "largepmf":
         return large_parameter_pmf()[1][:3] or None
     if part == "poisson":
